@@ -1398,7 +1398,8 @@ impl ErasedNode for Node {
         if !was_necessary {
             self.became_necessary(state);
         }
-        if let Some(Kind::Expert(expert)) = self.kind() {
+        // the callback of the new edge belongs to the parent, which is the expert node
+        if let Some(Kind::Expert(expert)) = p.kind() {
             expert.run_edge_callback(child_index)
         }
     }
